@@ -89,7 +89,7 @@ PROPS = {
     "C09": {
         "level": "exploration",
         "interpreters": PRODUCERS,
-        "rule": "every function of the signature-shape space S-SIG (see C04), and " + PROG_RULE % ("; thorough adds the stdlib corpus", "with at least one operand-table entry, counted separately as decoded and as canonically re-encoded (normalize().to_code() decoded again)")
+        "rule": "every function of the signature-shape space S-SIG (see C04; also with its *args / **kwargs variable renamed to the empty string), and " + PROG_RULE % ("; thorough adds the stdlib corpus", "with at least one operand-table entry, counted separately as decoded and as canonically re-encoded (normalize().to_code() decoded again)")
         + ". For every override-carrying table entry whose position equals its first-use rank (computed from CPython's reading), the override is removed from all uses with dataclasses.replace and the data re-encoded: identical code => violation.",
         "assumptions": TRUST + ["at most 64 removal experiments per code object (cap hits are reported as sum_removal_cap_hits; 0 on a healthy tree)"],
         "required_reach": {"quick": CODE_REACH + ["unreferenced:const", "unreferenced:name@3.7,3.8,3.9", "tables-in-first-use-order:decoded", "tables-in-first-use-order:canonical", "override-carrying:decoded"]},
